@@ -22,7 +22,11 @@
    spellings of a character in an XER text body (coq/Rt/EntrefComplete.v, coq/Rt/ResumeX.v):   ds := d:u,d:u,.. (digit value : upper case?)
      entref <hexa 0|1> <ds>               -> <hex of ref_chars> <ref_val> <hex of what ResumeX.ref_at reads it as | ->
      entrefl <hexa 0|1> <ds>              -> the same reading with the lower-case-only digit table (digit_lower)
-     entdec <hex body|->                  -> <RC> <consumed> <hex of the string>   (ResumeX.entref_step on body ++ "<") *)
+     entdec <hex body|->                  -> <RC> <consumed> <hex of the string>   (ResumeX.entref_step on body ++ "<")
+   skipping of unknown XML subtrees (coq/Rt/XerSkip.v):   toks := tok,tok,..   tok := o<name> | c<name> | b<name> | t   (names = numbers)
+     xskrun <N> <toks>                    -> <value of xer_skip_unknown> <depth> <tags looked at> <tokens consumed>   (phase 3 from depth 1)
+     xskseed <N> <toks>                   -> the same with the name-sensitive step of seeded/C03-9 (xer_skip_seed)
+     xextrun <N> <toks>                   -> DONE <tokens consumed> | FAIL | MORE    (phases 1 and 3, no known member expected) *)
 open Model
 open Drvlib
 
@@ -192,6 +196,14 @@ let nat_s = function Some k -> string_of_int (int_of_nat k) | None -> "N"
 let pick_s = function POutside -> "X" | PNone -> "N" | PSome k -> string_of_int (int_of_nat k)
 let list_s f l = if l = [] then "-" else String.concat "," (List.map f l)
 
+let xtoks s : xtok list =
+  List.map (fun e ->
+    if e = "t" then TText
+    else begin
+      let n = cz_of_string (String.sub e 1 (String.length e - 1)) in
+      match e.[0] with 'o' -> TOpen n | 'c' -> TClose n | 'b' -> TBoth n | _ -> raise (Parse "bad token")
+    end) (split_on ',' s)
+
 let dispatch cmd args =
   match cmd, args with
   | "bervar", [t; v; c] -> Some (hex_opt (ber_var (ty_of t) (ch_of c) (val_of v)))
@@ -236,4 +248,10 @@ let dispatch cmd args =
       Some (Printf.sprintf "%s %d %s" (match c with OK -> "OK" | MORE -> "MORE" | FAIL -> "FAIL") (int_of_nat k)
               (if acc = [] then "-" else hex_of_bytes acc))
   | "t2mset", [m; tag] -> Some (nat_s (tag_find (parse_map m) (cz_of_string tag)))
+  | "xskrun", [n; ts] | "xskseed", [n; ts] ->
+      let (((r, d), nt), nk) = (if cmd = "xskrun" then skip_run else skip_run_seed) (cz_of_string n) (xtoks ts) (cz_of_string "1") O O in
+      Some (Printf.sprintf "%s %s %d %d" (string_of_cz r) (string_of_cz d) (int_of_nat nt) (int_of_nat nk))
+  | "xextrun", [n; ts] ->
+      Some (match ext_run_c (cz_of_string n) (xtoks ts) with
+            | XDone k -> Printf.sprintf "DONE %d" (int_of_nat k) | XFailed -> "FAIL" | XMore -> "MORE" | XKnown k -> Printf.sprintf "KNOWN %d" (int_of_nat k))
   | _ -> None
